@@ -1,9 +1,10 @@
 import PersimVerif.Drv.Util
-/-! driver commands: PL (stub until the model lands) -/
+import PersimVerif.Drv.PLArith
+/-! driver commands: PL — dispatcher.  C09's commands (`pla.*`) live in `Drv/PLArith.lean`; the C10
+    handler (norms) is added here by the integrator on merge. -/
 namespace PersimVerif.Drv.PL
 open PersimVerif Val PersimVerif.Drv
 
-def handle : Handler
-  | _, _ => none
+def handle : Handler := fun op args => PLArith.handle op args
 
 end PersimVerif.Drv.PL
